@@ -3,6 +3,6 @@
 export GOFLAGS=-mod=mod GOPROXY=off GOSUMDB=off GOTOOLCHAIN=local GOWORK=off
 mkdir -p /tmp/thor; rm -f /tmp/thor/*
 for p in $(seq -f "C%02g" 1 20); do
-  /verif/bin/bdcheck -prop $p -tier thorough -strict-selftest > /tmp/thor/$p.log 2>&1
+  ${BD:-/verif/bin/bdcheck} -prop $p -tier thorough -strict-selftest > /tmp/thor/$p.log 2>&1
   echo "$p exit=$? $(grep -c SELFTEST-PROBLEM /tmp/thor/$p.log) selftest problem(s); $(tail -1 /tmp/thor/$p.log)"
 done
